@@ -81,7 +81,7 @@ theorem coprime_mod_facts {d1 l : Nat} (hev : 2 ∣ d1) (h2 : 2 < d1) (hl : Nat.
 theorem sym_cover {baby : Nat → Bool} {g : Nat × Nat × Nat} {d1 d2 l : Nat}
     (hbaby : ∀ b, 0 < b → b < d1 / 2 → Nat.gcd b d1 = 1 → baby b = true)
     (hev : 2 ∣ d1) (h2 : 2 < d1) (hl : Nat.gcd l d1 = 1)
-    (hlo : g.1 * d1 ≤ l + d1 / 2)
+    (hlo : giantLo g * d1 ≤ l + d1 / 2)
     (hhi : l + 1 ≤ (giantHi g d2 - 1) * d1 + d1 / 2) (hpos : 0 < giantHi g d2) :
     symIsGrid baby g d1 d2 l = true := by
   obtain ⟨hg, h0, hh, hlt⟩ := coprime_mod_facts hev h2 hl
@@ -99,10 +99,10 @@ theorem sym_cover {baby : Nat → Bool} {g : Nat × Nat × Nat} {d1 d2 l : Nat}
   rcases Nat.lt_or_ge r (d1 / 2) with hlt2 | hge2
   · -- b = r, i = q
     have hb := hbaby r (by omega) hlt2 hg
-    have hq1 : g.1 ≤ q := by
+    have hq1 : giantLo g ≤ q := by
       by_contra hcon
-      have : q + 1 ≤ g.1 := by omega
-      have h3 : (q + 1) * d1 ≤ g.1 * d1 := Nat.mul_le_mul_right _ this
+      have : q + 1 ≤ giantLo g := by omega
+      have h3 : (q + 1) * d1 ≤ giantLo g * d1 := Nat.mul_le_mul_right _ this
       have h4 : (q + 1) * d1 = d1 * q + d1 := by ring
       omega
     have hq2 : q < H := by
@@ -115,10 +115,10 @@ theorem sym_cover {baby : Nat → Bool} {g : Nat × Nat × Nat} {d1 d2 l : Nat}
   · -- b = d1 - r, i = q + 1
     have hgt : d1 / 2 < r := by omega
     have hb := hbaby (d1 - r) (by omega) (by omega) (by rw [Nat.gcd_self_sub_left (by omega)]; exact hg)
-    have hq1 : g.1 ≤ q + 1 := by
+    have hq1 : giantLo g ≤ q + 1 := by
       by_contra hcon
-      have : q + 2 ≤ g.1 := by omega
-      have h3 : (q + 2) * d1 ≤ g.1 * d1 := Nat.mul_le_mul_right _ this
+      have : q + 2 ≤ giantLo g := by omega
+      have h3 : (q + 2) * d1 ≤ giantLo g * d1 := Nat.mul_le_mul_right _ this
       have h4 : (q + 2) * d1 = d1 * q + 2 * d1 := by ring
       omega
     have hq2 : q + 1 < H := by
@@ -141,32 +141,31 @@ theorem sym_grid_le {baby : Nat → Bool} {g : Nat × Nat × Nat} {d1 d2 m : Nat
   have h3 : i * d1 ≤ (giantHi g d2 - 1) * d1 := Nat.mul_le_mul_right _ (by omega)
   omega
 
-/-! ### instances: ECM, ECM128, P+1 -/
+/-! ### instances: ECM, ECM128, P+1
+
+The loop constants come from `Gen/Stage2Arms.lean`; `delta` exposes their current values, so these
+lemmas (and everything built on them) fail to check when the source loops change. -/
 
 theorem ecmGiantHi (d2 : Nat) (h : 2 ≤ d2) : giantHi Stage2Arms.ecmGiant d2 = d2 + 1 := by
-  simp [giantHi, giantCount, Stage2Arms.ecmGiant]; omega
+  delta Stage2Arms.ecmGiant; simp [giantHi, giantLo, giantCount]; omega
 
 theorem ecm128GiantHi (d2 : Nat) (h : 2 ≤ d2) : giantHi Stage2Arms.ecm128Giant d2 = d2 + 1 := by
-  simp [giantHi, giantCount, Stage2Arms.ecm128Giant]; omega
+  delta Stage2Arms.ecm128Giant; simp [giantHi, giantLo, giantCount]; omega
 
 theorem pp1GiantHi (d2 : Nat) (h : 1 ≤ d2) : giantHi Stage2Arms.pp1Giant d2 = d2 + 1 := by
-  simp [giantHi, giantCount, Stage2Arms.pp1Giant]; omega
+  delta Stage2Arms.pp1Giant; simp [giantHi, giantLo, giantCount]; omega
 
-theorem ecmBaby_of {d1 b : Nat} (h0 : 0 < b) (h1 : b < d1 / 2) (hg : Nat.gcd b d1 = 1) :
-    isEcmBabyOf Stage2Arms.ecmBaby d1 b = true := by
-  simp [isEcmBabyOf, Stage2Arms.ecmBaby, hg, h1]; omega
+theorem ecmGiantLo : giantLo Stage2Arms.ecmGiant = 1 := by delta Stage2Arms.ecmGiant; rfl
+theorem ecm128GiantLo : giantLo Stage2Arms.ecm128Giant = 1 := by delta Stage2Arms.ecm128Giant; rfl
+theorem pp1GiantLo : giantLo Stage2Arms.pp1Giant = 1 := by delta Stage2Arms.pp1Giant; rfl
 
-theorem ecm128Baby_of {d1 b : Nat} (h0 : 0 < b) (h1 : b < d1 / 2) (hg : Nat.gcd b d1 = 1) :
-    isEcmBabyOf Stage2Arms.ecm128Baby d1 b = true := by
-  simp [isEcmBabyOf, Stage2Arms.ecm128Baby, hg, h1]; omega
+theorem ecmBaby_iff {d1 b : Nat} :
+    isEcmBabyOf Stage2Arms.ecmBaby d1 b = true ↔ 0 < b ∧ b < d1 / 2 ∧ Nat.gcd b d1 = 1 := by
+  delta Stage2Arms.ecmBaby; simp [isEcmBabyOf]; omega
 
-theorem ecmBaby_bounds {d1 b : Nat} (h : isEcmBabyOf Stage2Arms.ecmBaby d1 b = true) :
-    0 < b ∧ b < d1 / 2 ∧ Nat.gcd b d1 = 1 := by
-  simp [isEcmBabyOf, Stage2Arms.ecmBaby] at h; omega
-
-theorem ecm128Baby_bounds {d1 b : Nat} (h : isEcmBabyOf Stage2Arms.ecm128Baby d1 b = true) :
-    0 < b ∧ b < d1 / 2 ∧ Nat.gcd b d1 = 1 := by
-  simp [isEcmBabyOf, Stage2Arms.ecm128Baby] at h; omega
+theorem ecm128Baby_iff {d1 b : Nat} :
+    isEcmBabyOf Stage2Arms.ecm128Baby d1 b = true ↔ 0 < b ∧ b < d1 / 2 ∧ Nat.gcd b d1 = 1 := by
+  delta Stage2Arms.ecm128Baby; simp [isEcmBabyOf]; omega
 
 theorem odd_of_coprime_even {d1 r : Nat} (hev : 2 ∣ d1) (hg : Nat.gcd r d1 = 1) : r % 2 = 1 := by
   by_contra hcon
@@ -178,24 +177,27 @@ theorem not3_of_coprime {d1 r : Nat} (h3 : 3 ∣ d1) (hg : Nat.gcd r d1 = 1) : r
   have : 3 ∣ Nat.gcd r d1 := Nat.dvd_gcd (by omega) h3
   rw [hg] at this; omega
 
-theorem pp1Baby_of {d1 b : Nat} (h6 : 6 ∣ d1) (h0 : 0 < b) (h1 : b < d1 / 2) (hg : Nat.gcd b d1 = 1) :
-    isPp1BabyOf Stage2Arms.pp1Baby d1 b = true := by
+/-- P+1 keeps exactly the residues ECM keeps (for 6 ∣ d1): `b = 1`, or odd `b`, `3 ∤ b`, coprime. -/
+theorem pp1Baby_iff {d1 b : Nat} (h6 : 6 ∣ d1) (hd : 0 < d1) :
+    isPp1BabyOf Stage2Arms.pp1Baby d1 b = true ↔ 0 < b ∧ b < d1 / 2 ∧ Nat.gcd b d1 = 1 := by
   have hev : 2 ∣ d1 := Nat.dvd_trans (by decide) h6
   have h3 : 3 ∣ d1 := Nat.dvd_trans (by decide) h6
-  have ho := odd_of_coprime_even hev hg
-  have hn := not3_of_coprime h3 hg
-  simp only [isPp1BabyOf, Stage2Arms.pp1Baby]
-  rcases Nat.lt_or_ge 1 b with hb | hb
-  · have : (b - 1) % 2 = 0 := by omega
-    simp [hb, this, h1, hn, hg]
-  · have : b = 1 := by omega
-    simp [this]
-
-theorem pp1Baby_bounds {d1 b : Nat} (hd : 2 < d1) (h : isPp1BabyOf Stage2Arms.pp1Baby d1 b = true) :
-    0 < b ∧ b < d1 / 2 := by
-  simp [isPp1BabyOf, Stage2Arms.pp1Baby] at h
-  rcases h with h | h
-  · omega
-  · omega
+  have h6' : 6 ≤ d1 := Nat.le_of_dvd hd h6
+  delta Stage2Arms.pp1Baby
+  simp only [isPp1BabyOf]
+  constructor
+  · intro h
+    simp at h
+    rcases h with h | h
+    · subst h; simp; omega
+    · omega
+  · rintro ⟨h0, h1, hg⟩
+    have ho := odd_of_coprime_even hev hg
+    have hn := not3_of_coprime h3 hg
+    rcases Nat.lt_or_ge 1 b with hb | hb
+    · have : (b - 1) % 2 = 0 := by omega
+      simp [hb, this, h1, hn, hg]
+    · have : b = 1 := by omega
+      simp [this]
 
 end Ymq.Stage2
